@@ -9,6 +9,12 @@ def one(d):
     props = sorted(set([m["property"]] + m.get("caught_by", [])))
     r = subprocess.run([os.path.join(HERE, "try_patch.py"), os.path.join(d, "patch.diff")] + props, stdout=subprocess.PIPE, stderr=subprocess.STDOUT, text=True)
     caught = re.findall(r"^(C\d+) CAUGHT (.*)$", r.stdout, re.M)
+    if "--update" in sys.argv and caught:
+        # refresh the recorded verdict (after a strengthening): which checks / rules report the change today
+        m["verdict"] = "caught"
+        m["caught_by"] = sorted({c[0] for c in caught})
+        m["caught_by_rules"] = sorted({x for c in caught for x in c[1].split()})
+        json.dump(m, open(os.path.join(d, "meta.json"), "w"), indent=1)
     return os.path.basename(d), caught, r.stdout
 bad = 0
 with ThreadPoolExecutor(4) as ex:
